@@ -554,7 +554,8 @@ class Screen(BaseScreen, RealTerminal):
                 return False
             a, _cs, text = row[0]
             # spaces with a visible attribute (e.g. a background colour) are not blank
-            return not text.strip() and attr_to_escape(a) == attr_to_escape(None)
+            # only spaces are blank: bytes.strip() would also drop control whitespace that is drawn as "?"
+            return not text.strip(b" ") and attr_to_escape(a) == attr_to_escape(None)
 
         def attr_to_escape(a: AttrSpec | str | None) -> str:
             if a in self._pal_escape:
